@@ -634,4 +634,59 @@ theorem step_base_keep (st : State) (b : Int) (hb : st.base = some b) (hd : st.b
     · next he => rw [he] at hk; exact hk
   | clear => simp [isClear] at hc
 
+/-! ### the base alone (whatever the "set by DIM" flag says) -/
+
+theorem optionBase_base_some (st : State) (b' b : Int) (hb : st.base = some b) :
+    (optionBase st b').1.base = some b := by
+  unfold optionBase
+  rw [hb]
+  simp only
+  split
+  · exact hb
+  · next hne =>
+    have e : b' = b := by simpa using hne
+    simp [e]
+
+theorem allocate_base_some (st : State) (name : Nat) (dims : List Int) (b : Int)
+    (hb : st.base = some b) : (allocate st name dims).1.base = some b := by
+  unfold allocate
+  split
+  · exact hb
+  · split
+    · exact hb
+    · split
+      · exact hb
+      · split
+        · next hn => rw [hb] at hn; cases hn
+        · split
+          · exact hb
+          · exact hb
+
+theorem dim_base_some (st : State) (l : List (Nat × List Int)) (b : Int)
+    (hb : st.base = some b) : (dim st l).1.base = some b := by
+  induction l generalizing st with
+  | nil => exact hb
+  | cons x xs ih =>
+    obtain ⟨m, d⟩ := x
+    have hk := allocate_base_some st m d b hb
+    unfold dim
+    split
+    · next he => rw [he] at hk; exact hk
+    · next he => rw [he] at hk; exact ih _ hk
+
+theorem checkDim_base_some (st : State) (name : Nat) (idx : List Int) (b : Int)
+    (hb : st.base = some b) : (checkDim st name idx).1.base = some b := by
+  have hk := allocate_base_some st name (idx.map fun _ => (10:Int)) b hb
+  unfold checkDim
+  split
+  · split <;> exact hb
+  · simp only
+    split
+    · next he => rw [he] at hk; exact hk
+    · next he =>
+      rw [he] at hk
+      split
+      · exact hk
+      · split <;> exact hk
+
 end PcbV.Arrays
